@@ -219,10 +219,10 @@ func arrLen(v any) int {
 func init() {
 	p := &mon.Property{
 		ID: "C17",
-		Rule: "v1 (package lib) cases are (a, b, metadata) over {none, SET, MULTISET, SET+Setkeys(id), MERGE (null-free), SET+MERGE, MULTISET+MERGE, SetPrecision(0.1)}: random structured pairs with arrays growing, shrinking and changing in place, equal-under-reading pairs, keyed member pairs, " +
+		Rule: "v1 (package lib) cases are (a, b, metadata) over {none, SET, MULTISET, SET+Setkeys(id), MERGE (null-free), SET+MERGE, MULTISET+MERGE, SetPrecision(0.1), MULTISET+Setkeys(id)}: random structured pairs (plus set / multiset members that are 1-140 KB strings differing in one middle byte, multiplicities up to 257) with arrays growing, shrinking and changing in place, equal-under-reading pairs, keyed member pairs, " +
 			"every array pair over {1,2,3} up to length 4 at three positions; verdict: diff empty <=> lib Equals <=> independent oracle; Patch of the in-memory diff (on a fresh parse of a and on the very operand the diff was computed from) and of the rendered+re-read diff gives b (lib Equals and reference canon); plus the -v2=false binary pipeline; " +
 			"non-trivial = non-empty diff; distinct = distinct (a, b, metadata)",
-		Floors: map[string]int{"round_trips_ok": 50000, "diff_empty": 5000, "hunks>=2": 10000, "root_array_grows": 3000, "root_array_shrinks": 3000, "root_array_same_length": 3000, "cli_v1_pipelines": 200, "b_is_patch_result": 3000, "applied_to_the_operand_itself": 5000},
+		Floors: map[string]int{"round_trips_ok": 50000, "diff_empty": 5000, "hunks>=2": 10000, "root_array_grows": 3000, "root_array_shrinks": 3000, "root_array_same_length": 3000, "cli_v1_pipelines": 200, "b_is_patch_result": 3000, "applied_to_the_operand_itself": 5000, "multiset_with_setkeys": 3000, "bulky_member_cases": 300},
 		Assumptions: []string{
 			"v1 needs SET next to Setkeys for keyed sets (dispatch looks at SET / MULTISET only)",
 			"MERGE inputs are null-free; Setkeys inputs satisfy the key precondition with scalar key values",
@@ -266,6 +266,52 @@ func init() {
 			Exhaustive: always,
 			Run: func(c *mon.Ctx, i int) {
 				c17Judge(c, FuzzCorpus[i/len(FuzzCorpus)], FuzzCorpus[i%len(FuzzCorpus)], m)
+			},
+		})
+	}
+	// MULTISET together with Setkeys: the arrays stay bags (v1 reads keyed sets under SET only)
+	v1MsetKeys := V1Set{Name: "v1:MULTISET+Setkeys(id)", MD: func() []lib.Metadata { return []lib.Metadata{lib.MULTISET, lib.Setkeys("id")} }, Reading: ref.Multiset,
+		Flags: []string{"-mset", "-setkeys", "id"}}
+	p.Strata = append(p.Strata, mon.Stratum{
+		Name: "random/" + v1MsetKeys.Name,
+		N:    qt(6000, 400000),
+		Run: func(c *mon.Ctx, i int) {
+			prof := gen.PTiny.With(func(p *gen.Profile) { p.Keys = []string{"id", "v"}; p.Scalars = []any{1.0, 2.0, "a"} })
+			a, b := gen.Pair(c.R, prof)
+			c.Feature("multiset_with_setkeys")
+			c17Judge(c, ref.ToJSON(a), ref.ToJSON(b), v1MsetKeys)
+		},
+	})
+	for _, m := range []V1Set{V1SetM, V1Mset} {
+		m := m
+		p.Strata = append(p.Strata, mon.Stratum{
+			Name: "bulky-members/" + m.Name,
+			N:    qt(400, 20000),
+			Run: func(c *mon.Ctx, i int) {
+				// members that are long strings (beyond 64 KiB too) differing only in the middle; high multiplicities
+				r := c.R
+				n := []int{1100, 5000, 70000, 140000}[i%4]
+				s1, s2 := midDiffPair(n)
+				alpha := []any{s1, s2, "x", 1.0, []any{s1}, map[string]any{"k": s2}, map[string]any{"k": s1}}
+				mk := func() []any {
+					var l []any
+					for k := r.Range(1, 4); k > 0; k-- {
+						l = append(l, gen.Pick(r, alpha))
+					}
+					return l
+				}
+				a, b := mk(), mk()
+				if i%3 == 0 && m.Reading == ref.Multiset {
+					hi := []int{3, 255, 256, 257}[(i/3)%4]
+					for k := 0; k < hi; k++ {
+						a = append(a, "x")
+					}
+					for k := r.Range(0, hi); k > 0; k-- {
+						b = append(b, "x")
+					}
+				}
+				c.Feature("bulky_member_cases")
+				c17Judge(c, ref.ToJSON(a), ref.ToJSON(b), m)
 			},
 		})
 	}
